@@ -194,6 +194,8 @@ def build(P, x0, rng):
     Atom = atom_class()
     sigs = [pym.Signal(f"s{i}") for i in range(P["nsig"])]
     for k in range(P["nsrc"]):
+        if rng.random() < 0.3:      # a source with a pre-allocated sensitivity (kept allocation: reset() zeroes it in place)
+            sigs[k] = pym.Signal(f"s{k}", sensitivity=np.zeros(P["sizes"][k]))
         sigs[k].state = x0[k].copy()
 
     def ref(i):
@@ -253,6 +255,14 @@ def run_atoms(case, ctx):
     P = gen_program(rng)
     x0 = [rng.standard_normal(P["sizes"][k]) for k in range(P["nsrc"])]
     net, sigs, mods, nested = build(P, x0, rng)
+    if rng.random() < 0.3:
+        # an earlier back-propagation at a point where a seed is not finite (e.g. a sqrt at 0 upstream of the network), then reset():
+        # nothing of it may survive into the evaluation that is judged
+        net.response()
+        sigs[P["nsig"] - 1].sensitivity = np.full(P["sizes"][P["nsig"] - 1], np.inf)
+        net.sensitivity()
+        net.reset()
+        ctx.count("programs_after_nonfinite_round")
     monitors.STATE.events = []
     try:
         net.response()
@@ -290,7 +300,7 @@ def run_atoms(case, ctx):
         err = abs(exact - an) / max(1.0, abs(exact), abs(an))
         worst = max(worst, err)
         tot = max(tot, abs(exact))
-        if err > 1e-9:
+        if not err <= 1e-9:
             raise Violation("total-derivative-mismatch/atoms", exact=exact, backprop=an, err=err,
                             kinds=[n["kind"] for n in P["prog"]], nslices=P["nslices"], nested=nested, seeded=outs)
     net.reset()
@@ -396,7 +406,7 @@ def run_fe(case, ctx):
         an = float(np.asarray(g) @ v)
         err = abs(an - ref) / max(abs(an), abs(ref), 1e-12)
         worst = max(worst, err)
-        if err > 1e-7:
+        if not err <= 1e-7:
             raise Violation("total-derivative-mismatch/fe-fan-out", backprop=an, exact=ref, err=err, seeded=which)
     ctx.count("fe_templates")
     net.reset()
@@ -414,11 +424,13 @@ def run_generic(case, ctx):
     n = int(rng.integers(3, 7))
     a0, b0, c0 = rng.uniform(0.5, 2, n), rng.uniform(0.5, 2, n), float(rng.uniform(0.5, 2))
     sa, sb, scs = pym.Signal("a", a0.copy()), pym.Signal("b", b0.copy()), pym.Signal("c", c0)
+    d0 = rng.uniform(0.5, 2, (2, 3))
+    sd = pym.Signal("d", np.asfortranarray(d0) if rng.random() < 0.5 else np.ascontiguousarray(d0.T).T)     # column-major 2-D source
     net = pym.Network()
     sz = net.append(pym.MakeComplex([sa, sb]))
     sabs = net.append(pym.ComplexNorm(sz))                       # |a+ib|
     sre = net.append(pym.RealPart(sz))                            # a
-    scat = net.append(pym.ConcatSignal([sa[1:], scs, sabs]))      # length (n-1)+1+n
+    scat = net.append(pym.ConcatSignal([sa[1:], scs, sabs, sd]))  # length (n-1)+1+n+6 (2-D input flattened row-major)
     sm = net.append(pym.MathGeneral([scat, scs], expression="sin(inp0)*inp1 + inp0^2"))
     sdot = net.append(pym.EinSum([sm[: n], sre], expression="i,i->"))
     p = float(rng.uniform(2, 8))
@@ -436,7 +448,7 @@ def run_generic(case, ctx):
     if which[1]:
         ssc.sensitivity = float(w[1])
     net.sensitivity()
-    ga, gb, gc = sa.sensitivity, sb.sensitivity, scs.sensitivity
+    ga, gb, gc, gd = sa.sensitivity, sb.sensitivity, scs.sensitivity, sd.sensitivity
     maxval = net.mods[-1].maxval
 
     def F(a, b, c):
@@ -452,18 +464,20 @@ def run_generic(case, ctx):
         va, vb, vc = rng.standard_normal(n), rng.standard_normal(n), float(rng.standard_normal())
         h = 1e-30      # complex-step on my own forward model is exact for these analytic real functions ... except |z|: use real formula
         # |a+ib| is not complex-analytic in (a,b): write it as sqrt(a^2+b^2), which is
-        def Fcs(a, b, c):
-            cat = np.concatenate([a[1:], [c], np.sqrt(a * a + b * b)])
+        def Fcs(a, b, c, d):
+            cat = np.concatenate([a[1:], [c], np.sqrt(a * a + b * b), d.ravel()])
             m = np.sin(cat) * c + cat ** 2
             dot = np.sum(m[:n] * a)
             pn = np.sum(m ** p) ** (1 / p)
             sc_ = 10.0 * (pn / maxval - 1)
             return (w[0] * dot if which[0] else 0.0) + (w[1] * sc_ if which[1] else 0.0)
-        ref = float(np.imag(Fcs(a0 + 1j * h * va, b0 + 1j * h * vb, c0 + 1j * h * vc)) / h)
-        an = float(np.sum((0 if ga is None else ga) * va) + np.sum((0 if gb is None else gb) * vb) + (0 if gc is None else gc) * vc)
+        vd = rng.standard_normal((2, 3))
+        ref = float(np.imag(Fcs(a0 + 1j * h * va, b0 + 1j * h * vb, c0 + 1j * h * vc, d0 + 1j * h * vd)) / h)
+        an = float(np.sum((0 if ga is None else ga) * va) + np.sum((0 if gb is None else gb) * vb) + (0 if gc is None else gc) * vc
+                   + np.sum((0 if gd is None else np.asarray(gd)) * vd))
         err = abs(an - ref) / max(abs(an), abs(ref), 1e-12)
         worst = max(worst, err)
-        if err > 1e-9:
+        if not err <= 1e-9:
             raise Violation("total-derivative-mismatch/generic-template", backprop=an, exact=ref, err=err, seeded=which)
     return {"key": f"generic/{n}/{which}", "nontrivial": True, "obs": {"err": worst}}
 
